@@ -130,8 +130,7 @@ func (t *ServerTransport) ServeHTTP(w http.ResponseWriter, r *http.Request) {
 func (t *ServerTransport) Discard() {
 	t.once.Do(func() {
 		if t.conn != nil {
-			// The close handshake waits for the peer (for seconds when it is gone): do not block.
-			go t.conn.Close(websocket.StatusNormalClosure, "")
+			t.conn.Close(websocket.StatusNormalClosure, "")
 		}
 	})
 }
@@ -152,8 +151,7 @@ func (t *ServerTransport) close(err error) {
 		defer t.callbacks.OnClose(t.Name(), err)
 
 		if t.conn != nil {
-			// The close handshake waits for the peer (for seconds when it is gone): do not block.
-			go t.conn.Close(websocket.StatusNormalClosure, "")
+			t.conn.Close(websocket.StatusNormalClosure, "")
 		}
 	})
 }
